@@ -434,6 +434,9 @@ fn judge(st: &mut Stats, seed: u64, seq: &[Step], v: &Variant, o: &Outcome, log:
             BindRequested,
         }
         let mut kind = [K::Free, K::Hold, K::DropAtEof, K::Hold, K::Requested, K::BindRequested, K::Free];
+        // has the raw peer already sent Finish on the current incarnation of the id? (a Push after one's own Finish is
+        // answered with a Reset although the flow stays in the table)
+        let mut peer_finished = [false, false, false, true, false, false, false];
         for (i, (s, id)) in seq.iter().zip(&o.ids).enumerate() {
             let resp = &o.responses[i];
             let resets = count(resp, |f| matches!(f, RefFrame::Reset { id: x } if x == id));
@@ -453,15 +456,20 @@ fn judge(st: &mut Stats, seed: u64, seq: &[Step], v: &Variant, o: &Outcome, log:
                         fail(st, format!("connect-free-id-answer|{}", TARGETS[t]), format!("Connect on the id formerly used by {} (free again) was answered by {resets} Reset / {acks} Acknowledge (expected an Acknowledge)", TARGETS[t]));
                     } else {
                         kind[t] = K::Hold;
+                        peer_finished[t] = false;
                     }
                 }
                 kind[t] = match (s.op, kind[t]) {
                     (3, _) => K::Free,                                  // peer Reset frees whatever was there
+                    (5 | 6, K::Hold | K::DropAtEof) if resets >= 1 && !peer_finished[t] => K::Free, // a Push inside an open direction answered with a Reset: window overrun of a stream nobody reads, the flow is gone
                     (4, K::DropAtEof) => K::Free,                       // both sides finished, the application drops the stream
                     (4, K::Requested) | (4, K::BindRequested) => K::Free, // invalid reply to Connect / bind granted
                     (1, K::Requested) | (2, K::Requested) => K::Hold,   // handshake completed, the application keeps the stream
                     (_, k) => k,
                 };
+                if s.op == 4 {
+                    peer_finished[t] = true;
+                }
             }
         }
     }
@@ -560,7 +568,7 @@ pub fn run(p: &Params) -> (Stats, &'static str) {
     }
     st.exhaustive.push(format!("all frame sequences of length 1..={maxlen} over 9 opcodes x 7 targets (stepwise, binds enabled/disabled alternating by seed)"));
     // random longer sequences: bursts, overruns, garbage
-    let n = p.share(if p.tier_thorough { 200_000 } else { 6_000 });
+    let n = p.share(if p.tier_thorough { 6_000_000 } else { 6_000 });
     for i in 0..n {
         let seed = mix(base, 0xA0_0000 + i);
         let mut rng = Rng64::new(seed);
@@ -611,18 +619,18 @@ pub fn run(p: &Params) -> (Stats, &'static str) {
 }
 
 /// Debug helper: run one stepwise sequence given as "op:target,op:target" and print the trace.
-pub fn debug(seq_s: &str, seed: u64) {
+pub fn debug(seq_s: &str, seed: u64, binds: Option<bool>, rwnd: u32, overrun: bool) {
     std::panic::set_hook(Box::new(|_| {}));
     sim::install_observer();
     let seq: Vec<Step> = seq_s.split(',').filter(|x| !x.is_empty()).map(|x| {
         let (o, t) = x.split_once(':').unwrap();
         Step { op: OPS.iter().position(|n| *n == o).unwrap() as u8, target: TARGETS.iter().position(|n| *n == t).unwrap() as u8 }
     }).collect();
-    let v = Variant { binds_enabled: seed % 2 == 0, stepwise: true, rwnd: 4, overrun: false, garbage_at: None };
+    let v = Variant { binds_enabled: binds.unwrap_or(seed % 2 == 0), stepwise: true, rwnd, overrun, garbage_at: None };
     let sh = sim::Shared::new(mix(seed, 9), (seed % 4) as u8);
     let (seq2, v2) = (seq.clone(), v.clone());
     let _ = sim::run(&sh, move |sh| run_case(sh, seed, seq2, v2));
-    for l in sim::render(&sh.take_log(), 400) {
+    for l in sim::render(&sh.take_log(), 4000) {
         if l.contains("SENT") || l.contains("DLVD") || l.contains("FAULT") {
             println!("{l}");
         }
